@@ -32,3 +32,42 @@ macro_rules! vcover {
         kani::cover!(true, "VACUITY-GUARD reachable")
     };
 }
+
+/// one of the six keys hour_to_time is called with by prayer_times_dt (Imsaak uses the Fajr key)
+pub fn any_prayer6() -> Prayer {
+    let k: u8 = kani::any();
+    kani::assume(k < 6);
+    <Prayer as vmap::VKey>::vfrom(k as usize + 1)
+}
+pub fn any_prayer7() -> Prayer {
+    let k: u8 = kani::any();
+    kani::assume(k < 7);
+    <Prayer as vmap::VKey>::vfrom(k as usize)
+}
+
+use crate::geo::astro::{Astro, TopAstroDay};
+use crate::geo::coordinates::{Coordinates, Elevation, Gmt, Latitude, Longitude};
+use crate::geo::julian_day::JulianDay;
+
+pub fn any_f64_in(lo: f64, hi: f64) -> f64 {
+    let v: f64 = kani::any();
+    kani::assume(v >= lo && v <= hi);
+    v
+}
+pub fn any_coords() -> Coordinates {
+    Coordinates::new(
+        Latitude::try_from(any_f64_in(-90., 90.)).unwrap(),
+        Longitude::try_from(any_f64_in(-180., 180.)).unwrap(),
+        Elevation::try_from(any_f64_in(-420., 8848.)).unwrap(),
+    )
+}
+pub fn fixed_jd() -> JulianDay {
+    JulianDay { date: chrono::NaiveDate::from_yo_opt(2023, 172).unwrap(), gmt: Gmt::try_from(0.).unwrap(), value: 2460116.5 }
+}
+/// a TopAstroDay whose astronomical content is arbitrary (finite) – for harnesses in which the
+/// trig pipeline is replaced by stubs or not reached
+pub fn any_tad(jd: JulianDay, coords: Coordinates) -> TopAstroDay {
+    let a = crate::geo::astro::verif_kani_child::mk_astro(
+        any_f64_in(-1., 1.), any_f64_in(-24., 24.), any_f64_in(0., 360.), any_f64_in(0.9, 1.1), any_f64_in(0., 360.));
+    crate::geo::astro::verif_kani_child::mk_tad(jd, coords, [a, a, a])
+}
